@@ -1135,6 +1135,9 @@ def tree_spaces():
         'd3': odl.uniform_discr(0, 1.5, 3), 'd2': odl.uniform_discr(0, 1, 2),
         'r3a': odl.rn(3, weighting=[1.0, 2.0, 4.0]), 'c2a': odl.cn(2, weighting=[4.0, 0.5]),
         'cd2': odl.uniform_discr(0, 1, 2, dtype='complex128'),
+        'c3w': odl.cn(3, weighting=2.0), 'r2a': odl.rn(2, weighting=[4.0, 0.5]),
+        'c3a': odl.cn(3, weighting=[1.0, 2.0, 4.0]),
+        'cd3': odl.uniform_discr(0, 1.5, 3, dtype='complex128'),
     }
 
 
@@ -1144,6 +1147,26 @@ def wclass(S):
     if hasattr(w, 'const'):
         return ('const', float(w.const))
     return ('other', repr(S))
+
+
+def pick_space(rng, sps, like, same_field=False):
+    """a space of the zoo, mostly one between which and `like` a non-zero leaf exists"""
+    vals = list(sps.values())
+    r = rng.random()
+    if r < 0.7:
+        c = [s for s in vals if is_cplx(s) == is_cplx(like) and wclass(s) == wclass(like) and
+             wclass(s)[0] == 'const']
+        if c:
+            return rng.choice(c)
+        return like
+    if r < 0.85 and not same_field:
+        c = [s for s in vals if is_cplx(s) != is_cplx(like) and
+             (s.real_space == like or s.complex_space == like)]
+        if c:
+            return rng.choice(c)
+    if same_field:
+        return rng.choice([s for s in vals if is_cplx(s) == is_cplx(like)])
+    return rng.choice(vals)
 
 
 def gen_tree(rng, sps, dom, ran, depth, allow_cplx_scalar=True):
@@ -1208,7 +1231,7 @@ def gen_tree(rng, sps, dom, ran, depth, allow_cplx_scalar=True):
         b, sb, mb = gen_tree(rng, sps, dom, ran, depth - 1)
         return opm.OperatorSum(a, b), ('sum', sa, sb), ma or mb
     if k == 'comp':
-        mid = sps[rng.choice(names)]
+        mid = pick_space(rng, sps, rng.choice([dom, ran]))
         a, sa, ma = gen_tree(rng, sps, mid, ran, depth - 1)
         b, sb, mb = gen_tree(rng, sps, dom, mid, depth - 1)
         return opm.OperatorComp(a, b), ('comp', sa, sb), ma or mb
@@ -1244,7 +1267,8 @@ def gen_top(rng, sps, depth):
     names = list(sps)
     k = rng.random()
     if k < 0.65:
-        dom, ran = sps[rng.choice(names)], sps[rng.choice(names)]
+        dom = sps[rng.choice(names)]
+        ran = pick_space(rng, sps, dom)
         op, spec, _ = gen_tree(rng, sps, dom, ran, depth)
         return op, spec, 'tree'
     kind = rng.choice(['bcast', 'red', 'diag', 'pso'])
@@ -1253,7 +1277,7 @@ def gen_top(rng, sps, depth):
         X = sps[rng.choice(names)]
         subs = []
         for _ in range(n):
-            Y = sps[rng.choice([nm for nm in names if is_cplx(sps[nm]) == is_cplx(X)])]
+            Y = pick_space(rng, sps, X, same_field=True)
             subs.append((Y, gen_tree(rng, sps, X, Y, depth - 1) if kind != 'red'
                          else gen_tree(rng, sps, Y, X, depth - 1)))
         ops = [s[1][0] for s in subs]
@@ -1272,7 +1296,7 @@ def gen_top(rng, sps, depth):
     cplx = rng.random() < 0.4
     pool = [nm for nm in names if is_cplx(sps[nm]) == cplx]
     doms = [sps[rng.choice(pool)] for _ in range(rng.randint(1, 3))]
-    rans = [sps[rng.choice(pool)] for _ in range(rng.randint(1, 3))]
+    rans = [pick_space(rng, sps, rng.choice(doms), same_field=True) for _ in range(rng.randint(1, 3))]
     rows, entries = [], []
     for i, R_ in enumerate(rans):
         row = []
@@ -1419,7 +1443,9 @@ def one_tree(ctx, tseed, depth, sps, batch, count=True):
             tseed, type(e).__name__, str(e)[:160]))
         return None
     shape = tree_shape(spec)
-    key = 'tree shape={} dom={} ran={}'.format(shape[:160], sp_sig(op.domain), sp_sig(op.range))
+    key = 'tree shape={} kinds={} dom={} ran={}'.format(
+        shape[:160], ','.join(sorted(b.replace('blocks/', 'B') for b in spec_branches(spec))),
+        sp_sig(op.domain), sp_sig(op.range))
     if count:
         for b in spec_branches(spec):
             ctx.hit('model/' + b)
@@ -1449,16 +1475,37 @@ def run(ctx):
     zseed = ctx.rng.getrandbits(32)
     batch = []
     classes = run_zoo(ctx, zseed, batch)
+    if not ctx.quick:
+        # more value seeds for the data-dependent leaves (vectors, matrices, scalars)
+        for _ in range(2):
+            run_zoo(ctx, ctx.rng.getrandbits(32), batch)
     covered = set(classes)
     ctx.extra['classes_with_adjoint'] = sorted(found)
     ctx.extra['classes_exempt'] = sorted(EXEMPT & set(found))
-    ctx.extra['classes_not_in_zoo'] = sorted(set(found) - covered - EXEMPT)
+    tree_classes = {'OperatorSum', 'OperatorComp', 'OperatorLeftScalarMult',
+                    'OperatorRightScalarMult', 'OperatorLeftVectorMult',
+                    'OperatorRightVectorMult', 'FunctionalLeftVectorMult'}
+    ctx.extra['classes_covered_by_random_trees'] = sorted(tree_classes & set(found))
+    ctx.extra['classes_not_in_zoo'] = sorted(set(found) - covered - EXEMPT - tree_classes)
+    ctx.extra['classes_not_in_zoo_note'] = (
+        'Functional* expression classes define .adjoint only by inheritance for linear '
+        'functionals (ScalingFunctional/IdentityFunctional/ZeroFunctional are in the zoo); '
+        'PointwiseInnerBase is abstract')
     ctx.extra['classes_tested_only(opaque leaves, no executable model)'] = sorted(
         c for c in covered if c in ('PartialDerivative', 'Gradient', 'Divergence', 'Laplacian',
                                     'ResizingOperator', 'ResizingOperatorAdjoint') or c in APPROX)
-    n_trees = 250 if ctx.quick else 2500
+    n_trees = 300 if ctx.quick else 6000
     run_trees(ctx, n_trees, 3 if ctx.quick else 4, batch)
     flush(ctx, batch)
+    expected = {'scaling', 'zero', 'multiply', 'multfield', 'inner', 'realpart', 'imagpart',
+                'cembed', 'matrix', 'pwinner', 'pwinneradj', 'sampling', 'wsum', 'flatten',
+                'flatteninv', 'proj', 'projadj', 'sum', 'comp', 'lsc', 'rsc', 'lvec', 'rvec',
+                'flv', 'blocks/pso', 'blocks/bcast', 'blocks/red', 'blocks/diag'}
+    unhit = sorted(b for b in expected if 'model/' + b not in ctx.branches)
+    ctx.extra['unhit_model_branches'] = unhit
+    if unhit and not ctx.quick:
+        ctx.disagree({'case': 'coverage'}, 'model branches never exercised: {}'.format(unhit),
+                     'every constructor of the model must be tied in the thorough tier')
 
 
 def search(ctx, broken):
